@@ -41,3 +41,25 @@ Proof.
   destruct (overlay_cov_fold (s0 :: r) z (cov s0 z) Hz Hg W0 L0) as (_ & _ & _ & D). exact (D s Hin x y H).
 Qed.
 Print Assumptions C03_overlay_union.
+
+(* MBTiles: the advertised level box comes from MIN/MAX queries with a two-step refinement of the
+   row bounds (an estimate from the leftmost, middle and rightmost column, then MIN over the rows at
+   or below / MAX over the rows at or above it).  For every non-empty set of rows of a level the
+   result is exactly the bounding box: it contains every stored tile and touches all four sides. *)
+From VT Require Import Model.MBTiles Proofs.MBTilesProofs.
+Lemma C03_gen_mbtiles_rows : mbtiles_row_variant = 1%N.  Proof. reflexivity. Qed.
+
+Theorem C03_mbtiles_level_bounds :
+  forall rows, rows <> [] ->
+    exists x0 y0 x1 y1, level_bounds mbtiles_row_variant rows = Some (x0, y0, x1, y1) /\
+      (forall r, In r rows -> (x0 <= fst r <= x1)%N /\ (y0 <= snd r <= y1)%N) /\
+      (exists r, In r rows /\ fst r = x0) /\ (exists r, In r rows /\ fst r = x1) /\
+      (exists r, In r rows /\ snd r = y0) /\ (exists r, In r rows /\ snd r = y1).
+Proof. exact level_bounds_exact. Qed.
+Print Assumptions C03_mbtiles_level_bounds.
+
+Theorem C03_mbtiles_max_refinement_refuted :
+  level_bounds 0 [(2, 7); (10, 7); (6, 8); (3, 11)]%N = Some (2, 7, 10, 8)%N /\
+  level_bounds 1 [(2, 7); (10, 7); (6, 8); (3, 11)]%N = Some (2, 7, 10, 11)%N.
+Proof. exact level_bounds_refuted_v0. Qed.
+
